@@ -22,7 +22,7 @@ REPLAY = plain("replaydir", "TestVerifReplayDir")
 HOOK_COMMITS = ["2ae3df1"]  # commits in /repo that add build-tag-guarded hooks
 NOT_APPLICABLE = {}
 # checks reviewed by the lead and registered in MANIFEST.json (others are still under construction)
-READY = ["C01", "C02", "C03", "C04", "C05", "C06", "C07", "C08", "C09", "C10", "C11", "C13", "C14", "C15", "C16", "C17", "C18", "C19", "C20"]
+READY = ["C01", "C02", "C03", "C04", "C05", "C06", "C07", "C08", "C09", "C10", "C11", "C12", "C13", "C14", "C15", "C16", "C17", "C18", "C19", "C20"]
 
 CHECKS = {}
 
